@@ -206,6 +206,16 @@ def ops(rng, pp):
     def subnet(net):
         b = [int(x) for x in net.bus.index]
         keep = rng.sample(b, max(2, len(b) * 2 // 3))
+        t3s = net.switch[net.switch.et == "t3"] if len(net.switch) else net.switch
+        if len(t3s) and rng.random() < 0.6:
+            # directed: the bus of a t3 switch is selected, its three-winding transformer is not (one terminal left out), and a
+            # two-winding transformer with the same index lies inside the selection
+            sw = t3s.iloc[rng.randrange(len(t3s))]
+            t3 = int(sw.element)
+            if t3 in net.trafo3w.index and t3 in net.trafo.index:
+                terms = [int(net.trafo3w.at[t3, c]) for c in ("hv_bus", "mv_bus", "lv_bus")]
+                out = [x for x in terms if x != int(sw.bus)][:1]
+                keep = sorted((set(keep) | {int(sw.bus), int(net.trafo.hv_bus.at[t3]), int(net.trafo.lv_bus.at[t3])}) - set(out))
         return pp.select_subnet(net, keep, include_results=rng.random() < 0.5)
 
     return [
